@@ -91,7 +91,7 @@ man = {
                  'kind_free_text': 'repository-specific static analyser in pure stdlib Python: source model with star-import closure and MRO, statement CFG, reaching-definition / must-fact / may-alias dataflow, abstract interpretation of operator dispatch, expression pattern and term-table matcher'}],
     'checks': checks,
     'not_applicable': na,
-    'notes': 'All checks are static (family: static analysis). hooks.source_commits lists the unguarded "fix:" repairs of genuine defects found by the checks (see known_findings.json); there are no guarded hooks. Every check exits 2 with an ANALYSIS-ERROR line (never a VIOLATION line) when an anchor vanished or a construct has an unrecognised shape.',
+    'notes': 'All checks are static (family: static analysis). hooks.source_commits lists the unguarded "fix:" repairs of genuine defects found by the checks (see known_findings.json); there are no guarded hooks. A construct whose shape no rule recognises is reported as an UNRECOGNISED line and counted as undecided (exit code unchanged; VERIF_STRICT_FORMS=1 makes it fatal); a broken analysis (vanished anchor, instance floor, lost twin) exits 2 with an ANALYSIS-ERROR line, never a VIOLATION line.',
 }
 json.dump(man, open(os.path.join(V, 'MANIFEST.json'), 'w'), indent=1)
 print('checks:', [c['property_id'] for c in checks], 'na:', [n['property_id'] for n in na], 'fix commits:', len(fixes))
